@@ -213,7 +213,14 @@ pub fn gen_tree_eligible(rng: &Rng, pool: &Pool, depth: usize, max_files: usize,
         }
         if used.insert(n.clone()) {
             let (_, text) = rng.pick(&pool.progs);
-            ents.push(Ent::File { name: n, bytes: text.clone().into_bytes() });
+            ents.push(Ent::File { name: n.clone(), bytes: text.clone().into_bytes() });
+            // now and then the same content again under a name that differs only in letter case
+            if rng.chance(1, 8) {
+                let n2 = if n.chars().next().map(|c| c.is_ascii_uppercase()).unwrap_or(false) { n.to_lowercase() } else { n.to_uppercase().replace(".SOL", ".sol") };
+                if n2 != n && n2.ends_with(".sol") && used.insert(n2.clone()) {
+                    ents.push(Ent::File { name: n2, bytes: text.clone().into_bytes() });
+                }
+            }
         }
     }
     for _ in 0..nd {
